@@ -421,6 +421,24 @@ func runC11(c *Ctx) {
 				}
 				v := r.Vals[0]
 				okV := v.Op == "bin" && v.Aux == "+" && (v.Args[0].Op == "loopphi" || v.Args[0].Op == "loopval") && v.Args[1].Op == "convert" && v.Args[1].Args[0].Op == "slice" && v.Args[1].Args[0].Args[0] == buf && v.Args[1].Args[0].Args[2] == idx
+				// bytes accumulated in a []byte: string(append(accumulated, buffer[:newline]...))
+				if !okV && v.Op == "convert" && v.Args[0].Op == "append" && v.Args[0].Aux == "spread" && len(v.Args[0].Args) == 2 {
+					acc, pc := v.Args[0].Args[0], v.Args[0].Args[1]
+					if (acc.Op == "loopphi" || acc.Op == "loopval") && pc.Op == "slice" && pc.Args[0] == buf && (pc.Args[1] == nil || isIntConst(pc.Args[1], 0)) && pc.Args[2] == idx {
+						okV = true
+					}
+				}
+				if !okV && v.Op == "convert" && v.Args[0].Op == "slice" && v.Args[0].Args[0] == buf && v.Args[0].Args[2] == idx {
+					// fast path: nothing has been accumulated yet (the accumulator is empty), so
+					// accumulator + buffer[:newline] is buffer[:newline]
+					for _, at := range u.AtomsOf(r.Cond) {
+						if at.Op == "eq" && at.Args[0].Op == "len" && isIntConst(at.Args[1], 0) && u.bdd.Implies(r.Cond, u.Atom(at)) {
+							if acc := at.Args[0].Args[0]; acc.Op == "loopphi" || acc.Op == "loopval" {
+								okV = true
+							}
+						}
+					}
+				}
 				if !okV && bad == "" {
 					bad = "the line returned at the newline is " + clip(u.Show(v), 100) + ", documented: everything accumulated from earlier blocks + buffer[:newline] (a line longer than one 4 KiB block otherwise loses its beginning)"
 				}
